@@ -156,6 +156,24 @@ func resolveMathMultiply(t v1.MathTransform, input any) (any, error) {
 // is not a number. depending on the type of clamp, the result will be either
 // the input or the clamp value, preserving their original types.
 func resolveMathClamp(t v1.MathTransform, input any) (any, error) {
+	// Compare floats as floats. Truncating them to int64 first lets fractional
+	// values slip past the bound and mangles values beyond the int64 range.
+	if f, ok := input.(float64); ok {
+		switch t.GetType() { //nolint:exhaustive // We validate the type in ResolveMath
+		case v1.MathTransformTypeClampMin:
+			if f < float64(*t.ClampMin) {
+				return *t.ClampMin, nil
+			}
+		case v1.MathTransformTypeClampMax:
+			if f > float64(*t.ClampMax) {
+				return *t.ClampMax, nil
+			}
+		default:
+			return nil, errors.Errorf(errMathTransformTypeFailed, string(t.Type))
+		}
+		return input, nil
+	}
+
 	var in int64
 	switch i := input.(type) {
 	case int:
